@@ -7,7 +7,7 @@ _writes = {}
 
 def prog(config="K1"):
     if config not in _progs:
-        f, log = inline.apply(facts.load(config))
+        f, log = inline.apply(facts.load(config), config)
         _progs[config] = mir.Program(f)
         _progs[config].inlined = log
         roles.apply(_progs[config])
